@@ -22,6 +22,23 @@ FAMILIES = {
 DEFAULT_FAMILIES = ["base", "magnet", "current", "sensor", "dipole", "triangle", "triangularmesh", "markers"]
 
 COLORS = ["red", "blue", "green", "#00ff00", "#123456", "black"]
+# other documented ways of writing a colour and the value the library documents to store for them:
+# "A hex string", "A rgb string (e.g. 'rgb(185,204,255)')", "A rgb tuple (e.g. (120,125,126))",
+# matplotlib style float tuples scaled 0-1, and the one-letter names
+COLOR_FORMS = [
+    ([0, 0, 1], "#000001"), ([0.0, 0.0, 1.0], "#0000ff"), ([1, 0, 0], "#010000"), ([1.0, 0.0, 0.0], "#ff0000"),
+    ([120, 125, 126], "#787d7e"), ("r", "red"), ("k", "black"), ("#FF00AA", "#ff00aa"), ("rgb(1,2,3)", "#010203"),
+]
+
+
+def stored(leaf, value):
+    """the value the documentation says is stored for an input value (colours are normalised)"""
+    if kind_of(leaf) == "color":
+        for inp, out in COLOR_FORMS:
+            if type(value) is type(inp) and value == inp and \
+                    (not isinstance(inp, list) or [type(x) for x in value] == [type(x) for x in inp]):
+                return out
+    return norm(value)
 
 
 def is_alias(leaf):
@@ -160,7 +177,7 @@ class StyleModel:
             leaf = alias_target(leaf)
         if leaf not in self.S[i]:
             raise KeyError(leaf)
-        self.S[i][leaf] = norm(value)
+        self.S[i][leaf] = stored(leaf, value)
 
     def set_default(self, fam, leaf, value):
         if is_alias(leaf):
@@ -168,7 +185,7 @@ class StyleModel:
         k = fam + "_" + leaf
         if k not in self.D:
             raise KeyError(k)
-        self.D[k] = norm(value)
+        self.D[k] = stored(leaf, value)
 
     def default_for(self, cls, leaf):
         val = self.D.get("base_" + leaf)
@@ -180,7 +197,7 @@ class StyleModel:
 
     def effective(self, i, leaf, show_kw=None):
         if show_kw and leaf in show_kw:
-            return norm(show_kw[leaf])
+            return stored(leaf, show_kw[leaf])
         own = self.S[i].get(leaf)
         if own is not None:
             return own
